@@ -545,6 +545,15 @@ def check_C12(ctx):
             a = dict(h); a['id'] = h['id'] + '#nofilter'
             b = dict(h); b['id'] = h['id'] + '#filter'; b['filter'] = True; b['twin'] = a['id']; b['label'] = 'e2e-filter/' + h['label']
             pairs += [a, b]
+            # ... and behind a destination-options / routing header (today neither the matcher nor the filter looks behind those)
+            for ext in ('dst', 'rt'):
+                x = json.loads(json.dumps(s0)); x['id'] = s0['id'] + '/ext-' + ext; x['label'] = s0['label'] + '/ipv6-' + ext + '-header'
+                for reps in x['path'].values():
+                    for r in reps:
+                        r['ext6'] = ext
+                a = dict(x); a['id'] = x['id'] + '#nofilter'
+                b = dict(x); b['id'] = x['id'] + '#filter'; b['filter'] = True; b['twin'] = a['id']; b['label'] = 'e2e-filter/' + x['label']
+                pairs += [a, b]
         rule = ('(1) the classic-BPF instructions of every filter configuration (static programs; TCP 4-tuple program for address/port byte patterns at '
                 'sign/endianness boundaries) are extracted from the working tree and interpreted by Bpf.tla over the frame class space (ethertype, protocol, IHL 0..15, '
                 'fragment words, each address/port byte equal/different, all 256 TCP flag bytes, frame lengths around every load offset, IPv6 next-header chains) '
